@@ -156,6 +156,20 @@ def clause2(ctx, *args):
             if len(differing) <= 1 and s.str_value != v:
                 # (with several stale defaults the kept values may legitimately interact; single mismatch is unambiguous)
                 return False
+    if policy == "sdkconfig":
+        # relational reading of "keeps the stored value": for options without select / imply the values are those of
+        # loading the same file with every entry taken as a user value (markers removed)
+        fs.put("/m/nomark", "".join(x.config_string.replace("# default:\n", "", 1) for x in k.unique_defined_syms if x.config_string))
+        ku, _ = _load(tnew, fs, "/m/nomark", policy)
+        for s_ in kn.unique_defined_syms:
+            if s_.choice is not None or s_.name not in ku.syms:
+                continue
+            if s_.orig_type == K.BOOL and (s_.rev_dep is not kn.n or s_.weak_rev_dep is not kn.n):
+                continue
+            if not any(nd.prompt for nd in s_.nodes):
+                continue
+            if s_.str_value != ku.syms[s_.name].str_value:
+                return False
     # entries for options that are promptless in the new tree never pin a value
     if policy == "kconfig":
         n = ctx["nstate"]
